@@ -588,6 +588,10 @@ def run_align_vector(vec, tid: str, prop: str, variant: int = 0) -> dict:
     import numpy
     reset_options()
     rec = Recorder(tid, prop)
+    if (variant // 7) % 3 == 0:
+        # every third replay under non-default retain options: alignment forces its own flags
+        kw = {"retain_names": bool((variant // 21) % 2), "retain_coefficients": bool((variant // 42) % 2)}
+        rec.do("set_options", [], keep=False, kw=kw, bad=[], prop="C14")
     a = rec.new(_align_operand(vec["a"], ("int64", "float64", "int64", "complex128")[variant % 4]))
     b = rec.new(_align_operand(vec["b"], ("int64", "int64", "float64")[(variant // 4) % 3]))
     ops = [a, b]
@@ -597,6 +601,7 @@ def run_align_vector(vec, tid: str, prop: str, variant: int = 0) -> dict:
         new = rec.do("align", ops, fn=fn)
         if new and len(new) == len(ops):
             rec.do("realign", new, keep=False, fn=fn)
+    reset_options()
     rec.meta["source"] = "MC_Align"
     return rec.to_json()
 
